@@ -69,6 +69,19 @@ func LoadFindings() ([]Finding, error) {
 	return out, sc.Err()
 }
 
+// matchOne: exact, or with a leading and/or trailing "*" wildcard.
+func matchOne(want, got string) bool {
+	switch {
+	case strings.HasPrefix(want, "*") && strings.HasSuffix(want, "*") && len(want) >= 2:
+		return strings.Contains(got, want[1:len(want)-1])
+	case strings.HasSuffix(want, "*"):
+		return strings.HasPrefix(got, strings.TrimSuffix(want, "*"))
+	case strings.HasPrefix(want, "*"):
+		return strings.HasSuffix(got, strings.TrimPrefix(want, "*"))
+	}
+	return got == want
+}
+
 func (f *Finding) Covers(v *Violation) bool {
 	if f.Status != "open" || f.Property != v.Property || len(f.Match) == 0 {
 		return false
@@ -78,11 +91,14 @@ func (f *Finding) Covers(v *Violation) bool {
 		if !ok {
 			return false
 		}
-		if strings.HasSuffix(want, "*") {
-			if !strings.HasPrefix(got, strings.TrimSuffix(want, "*")) {
-				return false
+		hit := false
+		for _, alt := range strings.Split(want, "|") {
+			if matchOne(alt, got) {
+				hit = true
+				break
 			}
-		} else if got != want {
+		}
+		if !hit {
 			return false
 		}
 	}
